@@ -172,15 +172,31 @@ def _(self: SurveyK) -> None:
 
 @contract("Survey._add_empty_translations")
 def _(self: SurveyK) -> None:
-    trusted("pads _translations: C07 kernel")
+    properties("C07", "C08")
+    trusted("nested dicts mutated in place through subscripts: outside the prover's subset — bounded native search only")
+    native_only()
+    exhaustive_only()
     mutates(self=replace(self, _translations=TransSetup(self, 3)))
+    # C07 "All translations contain the same set of text ids" and, per id, the same forms; C08 "Where nothing was written
+    # for that language the entry is the explicit placeholder '-' ... never another language's or another row's text":
+    # padding adds '-' only, never changes or removes what was written, invents no language
+    ensures(SVB_pad_problems(self, final_self) == [])
+
+
 
 
 @contract("Survey.itext")
 def _(self: SurveyK) -> XNode:
-    trusted("itext block: C07/C08 kernel")
-    ensures(result == ItextNode(self) and result.nodeType == 1 and result.tagName == "itext")
+    properties("C07", "C08", "C06")
+    trusted("nested dict iteration building DOM nodes: bounded native search only (the real function builds a real minidom tree)")
+    native_only()
+    exhaustive_only()
+    functional("ItextNode")
     may_raise(PyXFormError, when=True)
+    # C07 "no language or id appears twice, and when the form's default language is one of the translations it is the only
+    # one marked default"; one <text> per id with the values written for that language; C06 flag discipline: a value is
+    # re-parsed as markup exactly when insert_output_values says it inserted outputs
+    ensures(SVB_itext_problems(self, result) == [])
 
 
 # ---------------------------------------------------------------- secondary instances (C09): declared once per id
